@@ -1,6 +1,7 @@
 (* drv_local.ml -- model side of the "local" stream (local part of C01 and C10).
 
-   case:    local R <zones> <cache> <questions>
+   case:    local R <zones> <cache> <questions> [<tag>]
+     tag       = free text without spaces naming the generator family (ignored by the drivers)
      zones     = zone|zone|...            ("_" = no zone); inserted into Zones in this order
      zone      = <apex name>~<soa>~<ops>
      soa       = N                        (non-authoritative, Zone::new(apex, None))
@@ -124,5 +125,5 @@ let run (zones : string) (cache : string) (questions : string) : string =
 
 let handle (toks : string list) : string =
   match toks with
-  | [ "R"; zones; cache; questions ] -> run zones cache questions
+  | [ "R"; zones; cache; questions ] | [ "R"; zones; cache; questions; _ ] -> run zones cache questions
   | _ -> failwith "local: bad case"
